@@ -316,7 +316,7 @@ def main():
              "kind_free_text": "symbolic model checker for TLA+: discharges the inductive invariant of spec/RingInd.tla (unbounded element "
              "values and histories), next to TLC's bounded exploration of spec/Ring.tla"},
             {"name": "tlaps", "path": "/usr/local/bin/tlapm", "serves_properties": ["C03"],
-             "kind_free_text": "TLA+ proof system: proves the commutation lemma behind the ample-set reduction (spec/Commute.tla, 15 obligations)"},
+             "kind_free_text": "TLA+ proof system: proves the commutation lemma behind the ample-set reduction (spec/Commute.tla, 40 obligations incl. the capacity-0 rendezvous)"},
             {"name": "go-race-detector", "path": "go build -race", "serves_properties": ["C09", "C12", "C13"],
              "kind_free_text": "data races are detected on the real code under the schedules the harness forces (barriers); the TLA+ models show "
              "them reachable in the design"},
